@@ -77,11 +77,24 @@ def evaluate(model, par_values: dict, kin_values: dict) -> str:
                 else sp.nsimplify(par_values[s].real, rational=True) + sp.I * sp.nsimplify(par_values[s].imag, rational=True)
         elif s.name in kin_values:
             values[s] = kin_values[s.name]
+        elif isinstance(s, sp.Symbol):
+            # symbol that is neither parameter nor kinematic variable (C01's business): any fixed value
+            values[s] = kin_value("undefined:" + s.name)
     number = sp.N(expr.xreplace(values).doit(), 30)
     if number.free_symbols or not number.is_number:
-        return f"non-numeric:{sorted(x.name for x in number.free_symbols)[:5]}"
+        return f"non-numeric:{sorted(str(x) for x in number.free_symbols)[:5]}"
     re, im = number.as_real_imag()
-    return f"{sp.N(re, 15)}|{sp.N(sp.Abs(im) if abs(im) < 1e-25 else im, 15)}"
+    return f"{sp.N(re, 25)}|{sp.N(im, 25)}"
+
+
+def same_number(a: str, b: str) -> bool:
+    import sympy as sp  # noqa: PLC0415
+
+    if a.startswith("non-numeric") or b.startswith("non-numeric"):
+        return a == b
+    (ar, ai), (br, bi) = (tuple(sp.Float(x, 25) for x in v.split("|")) for v in (a, b))
+    scale = max(abs(ar), abs(br), abs(ai), abs(bi), sp.Float("1e-8"))
+    return bool(abs(ar - br) <= scale * sp.Float("1e-12") and abs(ai - bi) <= scale * sp.Float("1e-12"))
 
 
 def numerically_equal(a, b, name_map: dict) -> bool | None:
@@ -268,12 +281,20 @@ def run_history(roots: list, ops: list, numeric: bool = False) -> dict:  # noqa:
                 inverse_kin[cmap.get(k.name, k.name)] = kin_value(k.name)
             kin_root = {k.name: kin_value(k.name) for k in root.kinematic_variables}
             # symbols of the expression that are neither (zeta angles defined via kinematic variables etc.)
-            number_slot = evaluate(model, dict(model.parameter_defaults.items()), inverse_kin)
             root_values = {p: actual.get(cmap.get(p.name, p.name)) for p in root.parameter_defaults}
-            number_root = evaluate(root, root_values, kin_root)
-            events.append({"i": oi, "op": "numeric", "slot": si, "value": number_slot})
-            if number_slot != number_root:
-                flag("numeric", f"slot {si} ({rx}): {number_slot} != root with carried-over values {number_root}", oi)
+            lost = sorted(p.name for p, v in root_values.items() if v is None)
+            if lost:
+                flag("numeric:parameter-lost", f"slot {si} ({rx}): no value carried over for {lost[:4]}", oi)
+            else:
+                try:
+                    number_slot = evaluate(model, dict(model.parameter_defaults.items()), inverse_kin)
+                    number_root = evaluate(root, root_values, kin_root)
+                except Exception as exc:  # noqa: BLE001
+                    flag(f"numeric:raised:{type(exc).__name__}", f"slot {si} ({rx}): evaluation raised {str(exc)[:120]}", oi)
+                else:
+                    events.append({"i": oi, "op": "numeric", "slot": si, "value": number_slot})
+                    if not same_number(number_slot, number_root):
+                        flag("numeric", f"slot {si} ({rx}): {number_slot} != root with carried-over values {number_root}", oi)
 
     for oi, op in enumerate(ops):
         kind = op["op"]
